@@ -85,13 +85,29 @@ func slice(array, from, to interface{}) interface{} {
 		}
 
 	case reflect.Ptr:
-		value := v.Elem()
-		if value.IsValid() && value.CanInterface() {
+		if value, ok := pointee(v); ok {
 			return slice(value.Interface(), from, to)
 		}
 
 	}
 	panic(fmt.Sprintf("cannot slice %v", from))
+}
+
+// pointee follows a pointer (through interface values) to what it points at;
+// the number of steps is bounded, as a pointer can point at itself.
+func pointee(v reflect.Value) (reflect.Value, bool) {
+	for i := 0; i < 64; i++ {
+		switch v.Kind() {
+		case reflect.Ptr, reflect.Interface:
+			if v.IsNil() {
+				return v, false
+			}
+			v = v.Elem()
+		default:
+			return v, v.IsValid() && v.CanInterface()
+		}
+	}
+	return v, false
 }
 
 func FetchFn(from interface{}, name string) reflect.Value {
@@ -185,8 +201,7 @@ func in(needle interface{}, array interface{}) bool {
 		return false
 
 	case reflect.Ptr:
-		value := v.Elem()
-		if value.IsValid() && value.CanInterface() {
+		if value, ok := pointee(v); ok {
 			return in(needle, value.Interface())
 		}
 		return false
